@@ -9,7 +9,7 @@ TRUSTED = ["the events of the alphabet are run on CPython itself in fresh interp
            "clause (ii), not by a static frame analysis"]
 EXPLANATION = ("Invariant argument decided by closed step obligations (eval): Inv = every lazy group is either Pending (exact class "
                "state of a fresh interpreter) or Loaded (digest identical to the canonical route). Base: a fresh interpreter is "
-               "all-Pending (one check per group and class cell). Step: for every group x state {Pending, Loaded} x event of the 256-event alphabet that "
+               "all-Pending (one check per group and class cell). Step: for every group x state {Pending, Loaded} x event of the 258-event alphabet that "
                "touches it (count in the evidence) the real code is run from that state in a fresh interpreter and must end in Inv with "
                "the canonical value returned. Because each Inv state has a single concretisation per group this finite set is "
                "the induction step for all histories, up to the group-independence clause. Bounded cross-check: sampled "
